@@ -40,7 +40,8 @@ ASSUMPTIONS = ['files that no script mentions may or may not be in the '
                'dist=False / build-directory files)']
 
 FEATURES = ['hdrdir', 'hdrfile', 'generic', 'man', 'extra_dist', 'find',
-            'find_platform', 'find_nocache', 'nodist_src', 'nodist_generic',
+            'find_platform', 'find_platform_dirs', 'find_nocache', 'nodist_src',
+            'nodist_generic',
             'nodist_find', 'submodule', 'opt_submodule', 'generated',
             'cmdfiles', 'copy', 'extra_deps']
 
@@ -112,6 +113,18 @@ def render(case, src):
         L.append("pfound = find_files('plat/*.c', filter=filter_by_platform)")
         src_expr += ' + pfound'
         req |= {'plat/io_linux.c', 'plat/io_windows.c', 'plat/common.c'}
+    if 'find_platform_dirs' in F:
+        # sources of other platforms kept in per-platform directories: not
+        # built here, but part of the source distribution
+        files['pdirs/common.c'] = 'int pc(void){return 0;}\n'
+        files['pdirs/linux/l.c'] = 'int pl(void){return 0;}\n'
+        files['pdirs/windows/w.c'] = 'int pw(void){return 0;}\n'
+        files['pdirs/darwin/sub/d.c'] = 'int pd(void){return 0;}\n'
+        L.append("pdfound = find_files('pdirs/**/*.c', "
+                 "filter=filter_by_platform)")
+        src_expr += ' + pdfound'
+        req |= {'pdirs/common.c', 'pdirs/linux/l.c', 'pdirs/windows/w.c',
+                'pdirs/darwin/sub/d.c'}
     if 'find_nocache' in F:
         files['nc/n1.c'] = 'int n1(void){return 0;}\n'
         files['nc/notes.md'] = 'n\n'
